@@ -1,4 +1,5 @@
-"""C11 bounded stand-in: score calibration (module level, on-disk dataset, and per fold through brew).
+"""C11 bounded stand-in: score calibration (module level, on-disk dataset, per fold through brew over chunkings and
+estimator kinds, and the reset path of a single pre-trained model).
 
   python -m harness.c11 --tier quick|thorough --seed N
 
@@ -6,6 +7,7 @@ The oracle never calls mokapot: accepted targets come from the exact rational q-
 the anchors are t = lowest score among the accepted targets and d = median decoy score, the expected result is
 (s - t) / (t - d).
 """
+import collections
 import importlib
 import json
 import logging
@@ -608,6 +610,573 @@ def check_per_fold_chunks(tier, seed):
 
 
 # ----------------------------------------------------------------------------------------------------------
+# (d) per fold, over the kinds of estimator (decision_function only / predict_proba only / both)
+# ----------------------------------------------------------------------------------------------------------
+class _LinearBase:
+    """The per-fold-scale linear model of FoldEstimator without any scoring method: subclasses expose
+    decision_function, predict_proba (in one of three shapes) or both."""
+
+    def __init__(self, gain=1.0):
+        self.gain = gain
+
+    def get_params(self, deep=True):
+        return {"gain": self.gain}
+
+    def set_params(self, **params):
+        for k, v in params.items():
+            setattr(self, k, v)
+        return self
+
+    def fit(self, X, y):
+        X = np.asarray(X, dtype=float)
+        y = np.asarray(y)
+        pos, neg = X[y == 1], X[y == 0]
+        self.w_ = np.array([1.0, 0.25 * np.tanh(pos[:, 1].mean() - neg[:, 1].mean())])
+        self.b_ = -float(np.median(X[:, 0]))
+        self.s_ = self.gain * (1 + len(X) % 7)
+        self.sd_ = float(X[:, 0].std()) + 1e-9
+        return self
+
+    def _lin(self, X):
+        return np.asarray(X, dtype=float)[:, :2] @ self.w_ + self.b_
+
+    def _prob(self, X):                                       # a NON-affine, strictly increasing image of _lin, inside (0, 1)
+        return 1.0 / (1.0 + np.exp(-self._lin(X) / self.sd_))
+
+
+class BothEstimator(_LinearBase):
+    """decision_function (per-fold scale) AND predict_proba (n, 2): the model output is the decision function"""
+
+    def decision_function(self, X):
+        return self.s_ * self._lin(X)
+
+    def predict_proba(self, X):
+        p = self._prob(X)
+        return np.column_stack([1 - p, p])
+
+
+class Proba2Estimator(_LinearBase):
+    """predict_proba only, shape (n, 2): the model output is the second column"""
+
+    def predict_proba(self, X):
+        p = self._prob(X)
+        return np.column_stack([1 - p, p])
+
+
+class Proba1Estimator(_LinearBase):
+    """predict_proba only, shape (n,)"""
+
+    def predict_proba(self, X):
+        return self._prob(X)
+
+
+class ProbaColEstimator(_LinearBase):
+    """predict_proba only, shape (n, 1)"""
+
+    def predict_proba(self, X):
+        return self._prob(X)[:, None]
+
+
+EST_KINDS = ("both", "sk-logreg", "proba2", "both", "decision", "proba1", "sk-logreg", "both", "sk-gnb", "probacol",
+             "sk-linsvc", "both")
+
+
+def _make_estimator(kind, gain):
+    if kind == "decision":
+        return FoldEstimator(gain)
+    if kind == "both":
+        return BothEstimator(gain)
+    if kind == "proba2":
+        return Proba2Estimator(gain)
+    if kind == "proba1":
+        return Proba1Estimator(gain)
+    if kind == "probacol":
+        return ProbaColEstimator(gain)
+    if kind == "sk-logreg":
+        from sklearn.linear_model import LogisticRegression
+        return LogisticRegression(C=float(gain))
+    if kind == "sk-linsvc":
+        from sklearn.svm import LinearSVC
+        return LinearSVC(dual=False, C=float(gain))
+    if kind == "sk-gnb":
+        from sklearn.naive_bayes import GaussianNB
+        return GaussianNB()
+    raise ValueError(kind)
+
+
+def _model_output(est, X):
+    """(the estimator's output as the statement understands it, has a decision function): the decision function
+    when there is one, else the probability of the positive class; computed from the fitted estimator alone"""
+    if hasattr(est, "decision_function"):
+        return np.asarray(est.decision_function(X), dtype=float).reshape(-1), True
+    p = np.asarray(est.predict_proba(X), dtype=float)
+    if p.ndim == 2:
+        p = p[:, -1]                                          # (n, 2): positive class; (n, 1): the only column
+    return p.reshape(-1), False
+
+
+def _recover_folds(files, done, folds):
+    """files: list of (df, row ids). done: the trained fold models sorted by fold number. Fold f of a file = its
+    rows the model numbered f was NOT trained on. Returns per file a list of id arrays, or None."""
+    out = []
+    for df, ids_file in files:
+        fold_of = {}
+        per = []
+        for f, m in enumerate(done):
+            ids = np.setdiff1d(ids_file, m.train_ids_)
+            if len(ids) == 0 or any(i in fold_of for i in ids.tolist()):
+                return None
+            for i in ids.tolist():
+                fold_of[i] = f
+            per.append(ids)
+        if len(fold_of) != len(ids_file) or len(per) != folds:
+            return None
+        out.append(per)
+    return out
+
+
+def _est_case(cfg, d):
+    """Run brew once with the estimator kind of cfg. Returns (df, outcome, fitted fold models)"""
+    brew_mod = importlib.import_module("mokapot.brew")
+    df = small_df(n_spec=cfg["n_spec"], dup=2, seed=cfg["data_seed"])
+    if cfg.get("round"):
+        df["f0"] = np.round(df["f0"] * 4) / 4
+    ds = make_ds(df, d / ("e%d.%s" % (cfg["k"], cfg["fmt"])))
+    del FITTED[:]
+    model = _fit_rec_model_class()(_make_estimator(cfg["kind"], cfg["gain"]),
+                                   scaler="as-is" if cfg["scaler"] == "as-is" else None, train_fdr=0.2,
+                                   max_iter=cfg["max_iter"], override=True, rng=cfg["data_seed"])
+    old = brew_mod.CHUNK_SIZE_ROWS_PREDICTION
+    if cfg["chunk"]:
+        brew_mod.CHUNK_SIZE_ROWS_PREDICTION = -(-len(df) // cfg["chunk"])
+    try:
+        _, models, scores, descs = brew_mod.brew(ds, model, test_fdr=cfg["test_fdr"], folds=cfg["folds"],
+                                                 rng=cfg["rng"], max_workers=cfg["workers"])
+        outcome = ("ok", scores[0])
+    except RuntimeError as e:
+        outcome = ("RuntimeError", str(e)[:160])
+    except Exception as e:                                   # noqa: BLE001
+        outcome = ("exception:" + type(e).__name__, str(e)[:200])
+    finally:
+        brew_mod.CHUNK_SIZE_ROWS_PREDICTION = old
+    return df, outcome, list(FITTED)
+
+
+def _scaled(m, X):
+    """the features as the fold model's estimator sees them (sklearn scaler fitted during training, or as they are)"""
+    return X if type(m.scaler).__name__ == "DummyScaler" else m.scaler.transform(X)
+
+
+def _fold_outputs(files, done, folds):
+    """files: [(df, row ids of the file)]. Per file and fold the fold model's own output on its held-out rows.
+    Returns (list of (file number, fold, row positions in the file, raw, targets), has decision function) or None
+    when the held-out rows do not partition the files."""
+    rec = _recover_folds(files, done, folds)
+    if rec is None:
+        return None
+    judged = []
+    has_dec = None
+    for fi, ((df, ids_file), per) in enumerate(zip(files, rec)):
+        by_id = df.set_index("SpecId")
+        pos_of = {i: p for p, i in enumerate(df["SpecId"].tolist())}
+        for f, ids in enumerate(per):
+            m = done[f]
+            X = by_id.loc[ids, list(m.features)].values.astype(float)
+            raw, has_dec = _model_output(m.estimator, _scaled(m, X))
+            lab = (by_id.loc[ids, "Label"].values == 1)
+            judged.append((fi, f, np.array([pos_of[i] for i in ids.tolist()]), raw, lab))
+    return judged, has_dec
+
+
+def _judge_est(cfg, df, outcome, fitted):
+    """Returns (list of (class id, what), folds in the domain, has decision function)."""
+    kind, val = outcome
+    tag = "estimator-" + cfg["kind"]
+    n = len(df)
+    done = sorted([m for m in fitted if getattr(m, "fit_done_", False)], key=lambda m: m.fold)
+    if len(done) != cfg["folds"]:
+        if kind == "RuntimeError":
+            return [], 0, None                                # training stopped with an explicit error
+        return [(tag + ":fold-recovery-failed", "%d trained fold models for %d folds (%s)"
+                 % (len(done), cfg["folds"], kind))], 0, None
+    rec = _fold_outputs([(df, df["SpecId"].values)], done, cfg["folds"])
+    if rec is None:
+        return [(tag + ":fold-recovery-failed", "the held-out rows of the fold models do not partition the table")], 0, None
+    judged, has_dec = rec
+    if kind.startswith("exception"):
+        return [(tag + ":" + kind, "brew raised: %s" % val)], 0, has_dec
+    accepted = [anchors(raw, lab, cfg["test_fdr"])[0] is not None for _, _, _, raw, lab in judged]
+    if kind == "RuntimeError":
+        if not all(accepted):
+            return [], 0, has_dec                             # explicit error (demanded with a decision function, tolerated without)
+        f32 = [1 for _, _, _, raw, lab in judged if anchors(raw, lab, cfg["test_fdr"], True)[0] is None]
+        return [(tag + ":" + ("runtimeerror-float32-threshold-tie(C01)" if f32 else "runtimeerror-unexpected"),
+                 "brew stopped with RuntimeError although every fold has an accepted target")], 0, has_dec
+    scores = np.asarray(val)
+    if scores.ndim != 1 or len(scores) != n:
+        return [], 0, has_dec                                 # best-feature fallback took over (C07)
+    if has_dec and not all(accepted):
+        return [(tag + ":runtimeerror-missing", "a fold without accepted target did not stop the run")], 0, has_dec
+    out, n_dom = [], 0
+    for _, f, pos, raw, lab in judged:
+        if has_dec:
+            cid, what, in_dom = judge(raw, lab, cfg["test_fdr"], ("ok", scores[pos]))
+        else:
+            cid, what, in_dom = judge_order_only(raw, scores[pos])
+        n_dom += bool(in_dom)
+        if cid:
+            out.append((tag + ":fold:" + cid, "fold %d (%s estimator): %s" % (f, cfg["kind"], what)))
+    return out, n_dom, has_dec
+
+
+def judge_order_only(raw, res):
+    """Estimators WITHOUT decision function (outside the anchor clause's quantifier): only the first sentence of the
+    statement is checked, the returned fold scores are a positive-slope affine image of the model output."""
+    raw = np.asarray(raw, dtype=float)
+    res = np.asarray(res, dtype=float)
+    if res.shape != raw.shape:
+        return "shape", "result shape %r for %d scores" % (res.shape, len(raw)), True
+    if raw.min() == raw.max():
+        return None, None, False
+    a, b = _affine(raw, res)
+    if a is None or not np.isfinite(a):
+        return "not-affine", "returned fold scores are not an affine function of the model's probabilities", True
+    if a <= 0:
+        return "order-reversed", "returned fold scores decrease with the model's probability (slope %g)" % a, True
+    return None, None, True
+
+
+def _est_configs(tier, seed):
+    rng = np.random.default_rng(seed + 111111)
+    n = 48 if tier == "quick" else 600
+    cfgs = []
+    for k in range(n):
+        kind = EST_KINDS[k % len(EST_KINDS)]
+        folds = 2 + (k // len(EST_KINDS) + k) % (3 if tier == "quick" else 5)
+        fdr = [0.2, 0.1, 0.25, 0.15][(k // 3) % 4] if k % 5 else float(np.round(rng.uniform(0.08, 0.3), 3))
+        if k % 12 in (7, 10) and (k // 12) % 2 == 0:
+            fdr = 0.001                                       # the explicit-error path ("both" and "sk-linsvc" slots)
+        cfgs.append({"k": k, "kind": kind, "n_spec": int(rng.integers(100, 181)),
+                     "data_seed": int(rng.integers(1 << 30)), "rng": int(rng.integers(1 << 30)), "folds": folds,
+                     "test_fdr": fdr, "fmt": "parquet" if (k // 2) % 2 else "tsv", "chunk": [None, 2, 3][(k // 4) % 3],
+                     "workers": 1 + (k % 5 == 4), "max_iter": 1 + (k % 4 == 3), "scaler": "standard" if k % 3 == 1 else "as-is",
+                     "gain": [1.0, 0.01, 30.0][(k // 2) % 3], "round": k % 7 == 6})
+    return cfgs
+
+
+def check_per_fold_estimators(tier, seed):
+    cfgs = _est_configs(tier, seed)
+    ck = Check(
+        "per_fold_estimators", "mokapot.brew.brew (brew._predict: which estimators get their fold scores calibrated; "
+        "model._get_scores)",
+        "random: %d brew runs (seed %d) on on-disk datasets of 200..360 PSMs (Parquet/TSV), folds 2..%d, estimator "
+        "kinds cycling over %s: the per-fold-scale linear estimator with decision_function only ('decision'), with "
+        "decision_function AND predict_proba ('both', the probability is a sigmoid of the decision value), with "
+        "predict_proba only in shapes (n,2) / (n,) / (n,1) ('proba2', 'proba1', 'probacol'), and sklearn's "
+        "LogisticRegression (both), LinearSVC(dual=False) (decision_function only), GaussianNB (predict_proba only); "
+        "feature scaler 'as-is' or StandardScaler, test_fdr in {0.2, 0.1, 0.25, 0.15, uniform(0.08,0.3), 0.001 (error "
+        "path)}, predictions in 1, 2 or 3 row chunks, max_workers 1 or 2, 1-2 training iterations, gain (sklearn: C) "
+        "0.01/1/30, f0 rounded to quarters in every 7th run"
+        % (len(cfgs), seed, 4 if tier == "quick" else 6, sorted(set(EST_KINDS))),
+        "fold f = the rows the trained fold model number f was not trained on (captured in Model.fit); the fold's model "
+        "output is recomputed from the fitted estimator (and fitted sklearn scaler): the decision function when the "
+        "estimator has one, else the positive-class probability; estimators WITH a decision function: the returned "
+        "fold scores must equal (raw - t)/(t - d) with t, d from the exact oracle (0 at t, -1 at d, same ranking), "
+        "RuntimeError iff some fold accepts nothing; estimators WITHOUT decision function (outside the quantifier "
+        "of the anchor clause): only 'positive-slope affine image of the model output' is demanded; case ids are "
+        "prefixed 'estimator-<kind>'; non-trivial = a scored run whose folds are all in the domain (accepted target "
+        "above the decoy median; without decision function: non-constant output), or an error-path run")
+    seen = set()
+    stats = {"runs_ok": 0, "folds_in_domain": 0, "error_path": 0, "fallback": 0, "with_decision_function": 0,
+             "both": 0, "proba_only": 0}
+    with scratch("c11d_") as d:
+        for cfg in cfgs:
+            df, outcome, fitted = _est_case(cfg, d)
+            vio, n_dom, has_dec = _judge_est(cfg, df, outcome, fitted)
+            if outcome[0] == "RuntimeError":
+                stats["error_path"] += 1
+            elif outcome[0] == "ok" and np.ndim(outcome[1]) != 1:
+                stats["fallback"] += 1
+            elif outcome[0] == "ok":
+                stats["runs_ok"] += 1
+                stats["folds_in_domain"] += n_dom
+                stats["with_decision_function"] += bool(has_dec)
+                stats["both"] += cfg["kind"] in ("both", "sk-logreg")
+                stats["proba_only"] += has_dec is False
+            nontriv = (outcome[0] == "RuntimeError" and not vio) or (outcome[0] == "ok" and n_dom == cfg["folds"])
+            ck.case(cfg, nontrivial=nontriv)
+            for cid, what in vio:
+                if cid not in seen:
+                    seen.add(cid)
+                    ck.violation(cid, what, cfg)
+    ck.rule += "; %(runs_ok)d scored runs (%(with_decision_function)d with a decision function, of which %(both)d " \
+               "also offer predict_proba; %(proba_only)d predict_proba only) with %(folds_in_domain)d folds in the " \
+               "domain, %(error_path)d error-path runs, %(fallback)d fallback runs" % stats
+    return _freeze(ck)
+
+
+# ----------------------------------------------------------------------------------------------------------
+# (e) the reset path: ONE pre-trained model whose re-training gets worse -> the original model, calibrated over
+#     the whole collection
+# ----------------------------------------------------------------------------------------------------------
+WORSE = "Model performs worse after training."
+RESET_MODES = ("weak", "flip", "some", "blind", "none", "weak", "some", "none")
+
+
+class DegradingEstimator:
+    """Linear decision function over all features. Fits made while `stage` is 0 (pre-training) learn the direction
+    between the class means; fits made afterwards (the harness sets stage = 1 once the model is pre-trained) learn,
+    by `mode`: 'weak' mostly noise features, 'blind' noise features only, 'flip' the reversed direction, 'some' the
+    weak direction for training sets of odd size only, 'none' the good direction again."""
+
+    def __init__(self, gain=1.0, mode="weak"):
+        self.gain = gain
+        self.mode = mode
+
+    def get_params(self, deep=True):
+        return {"gain": self.gain, "mode": self.mode}
+
+    def set_params(self, **params):
+        for k, v in params.items():
+            setattr(self, k, v)
+        return self
+
+    def fit(self, X, y):
+        X = np.asarray(X, dtype=float)
+        y = np.asarray(y)
+        w = X[y == 1].mean(axis=0) - X[y == 0].mean(axis=0)
+        w = w / (np.linalg.norm(w) + 1e-12)
+        noise = np.array([0.0] + [(-1.0) ** j for j in range(X.shape[1] - 1)]) / np.sqrt(max(1, X.shape[1] - 1))
+        mode = self.mode if getattr(self, "stage", 0) else "none"
+        if mode == "some":
+            mode = "weak" if len(X) % 2 else "none"
+        if mode == "weak":
+            w = 0.3 * w + noise
+        elif mode == "blind":
+            w = noise
+        elif mode == "flip":
+            w = -w
+        self.w_ = w
+        self.s_ = self.gain * (1 + len(X) % 7)
+        self.b_ = -float(np.median(X @ w))
+        self.degraded_ = mode != "none"
+        return self
+
+    def decision_function(self, X):
+        return self.s_ * (np.asarray(X, dtype=float) @ self.w_ + self.b_)
+
+
+def _reset_rec_model_class():
+    from mokapot.model import Model
+
+    class ResetRecModel(Model):
+        """remembers which rows it was trained on and with which RuntimeError the training stopped (the condition of
+        the reset path); nothing of the prediction path is observed"""
+
+        def fit(self, psms):
+            self.train_ids_ = psms.data["SpecId"].values.copy()
+            self.fit_done_ = False
+            self.fit_error_ = None
+            FITTED.append(self)
+            try:
+                out = super().fit(psms)
+            except RuntimeError as e:
+                self.fit_error_ = str(e)
+                raise
+            self.fit_done_ = True
+            return out
+    return ResetRecModel
+
+
+def _linear_ds(df):
+    from mokapot.dataset import LinearPsmDataset
+    mem = df.copy()
+    mem["Label"] = mem["Label"].values == 1
+    feats = [c for c in df.columns if c.startswith("f") and c[1:].isdigit()]
+    return LinearPsmDataset(psms=mem, target_column="Label", spectrum_columns=["ScanNr", "ExpMass"],
+                            peptide_column="Peptide", protein_column="Proteins", feature_columns=feats, copy_data=True)
+
+
+def _reset_case(cfg, d):
+    """Pre-train ONE model, hand it to brew. Returns (files [(df, ids)], raw output of the ORIGINAL model per file
+    (computed before brew runs), outcome, the fold copies brew trained) or None when pre-training failed."""
+    brew_mod = importlib.import_module("mokapot.brew")
+    df = small_df(n_spec=cfg["n_spec"], dup=2, seed=cfg["data_seed"], n_feat=cfg["n_feat"])
+    if cfg.get("round"):
+        df["f0"] = np.round(df["f0"] * 4) / 4
+    pre = df if cfg["pre"] == "same" else small_df(n_spec=cfg["n_spec"], dup=2, seed=cfg["data_seed"] + 1,
+                                                    n_feat=cfg["n_feat"])
+    model = _reset_rec_model_class()(DegradingEstimator(cfg["gain"], cfg["mode"]),
+                                     scaler="as-is" if cfg["scaler"] == "as-is" else None, train_fdr=cfg["train_fdr"],
+                                     max_iter=cfg["max_iter"], override=True, rng=cfg["data_seed"])
+    try:
+        model.fit(_linear_ds(pre))                            # pre-training keeps whatever was learned (override) ...
+    except Exception:                                         # noqa: BLE001
+        return None
+    if not model.is_trained:
+        return None
+    model.override = False                                    # ... re-training must not get worse
+    model.estimator.stage = 1                                 # every later fit is a RE-training
+    if cfg["files"] == 1:
+        parts = [df]
+    else:                                                     # cut between two spectra
+        cut = 2 * (cfg["n_spec"] * cfg["cut"] // 100)
+        parts = [df.iloc[:cut].reset_index(drop=True), df.iloc[cut:].reset_index(drop=True)]
+    files = [(p, p["SpecId"].values) for p in parts]
+    raw0 = [np.asarray(model.estimator.decision_function(_scaled(model, p[list(model.features)].values.astype(float))),
+                       dtype=float).copy() for p in parts]
+    dss = [make_ds(p, d / ("r%d_%d.%s" % (cfg["k"], i, cfg["fmt"]))) for i, p in enumerate(parts)]
+    del FITTED[:]
+    old = brew_mod.CHUNK_SIZE_ROWS_PREDICTION
+    if cfg["chunk"]:
+        brew_mod.CHUNK_SIZE_ROWS_PREDICTION = -(-len(parts[0]) // cfg["chunk"])
+    try:
+        _, models, scores, descs = brew_mod.brew(dss if cfg["files"] > 1 else dss[0], model, test_fdr=cfg["test_fdr"],
+                                                 folds=cfg["folds"], rng=cfg["rng"], max_workers=cfg["workers"])
+        outcome = ("ok", list(scores))
+    except RuntimeError as e:
+        outcome = ("RuntimeError", str(e)[:160])
+    except Exception as e:                                   # noqa: BLE001
+        outcome = ("exception:" + type(e).__name__, str(e)[:200])
+    finally:
+        brew_mod.CHUNK_SIZE_ROWS_PREDICTION = old
+    return files, raw0, outcome, list(FITTED)
+
+
+def _judge_reset(cfg, case):
+    """Returns (list of (class id, what), path, in_domain). path: 'reset-all' / 'reset-some' (re-training got worse in
+    every / in some fold), 'retrained' (no fold got worse: ordinary per-fold scoring), 'untrained', 'fallback',
+    'no-pretraining'."""
+    if case is None:
+        return [], "no-pretraining", False
+    files, raw0, outcome, fitted = case
+    kind, val = outcome
+    worse = [m for m in fitted if m.fit_error_ == WORSE]
+    other = [m for m in fitted if m.fit_error_ not in (None, WORSE)]
+    if other or len(fitted) != cfg["folds"]:
+        if kind == "RuntimeError":
+            return [], "untrained", False                     # training stopped with another explicit error
+        return [("reset:fold-recovery-failed", "%d fold trainings recorded for %d folds (%s)"
+                 % (len(fitted), cfg["folds"], kind))], "untrained", False
+    if kind.startswith("exception"):
+        return [(("reset:" if worse else "pretrained-folds:") + kind, "brew raised: %s" % val)], "exception", False
+    labs = [(df["Label"].values == 1) for df, _ in files]
+    if worse:
+        path = "reset-all" if len(worse) == cfg["folds"] else "reset-some"
+        acc = [anchors(r, l, cfg["test_fdr"])[0] is not None for r, l in zip(raw0, labs)]
+        if kind == "RuntimeError":
+            if not all(acc):
+                return [], path, True                         # explicit error: the original model accepts nothing somewhere
+            f32 = [1 for r, l in zip(raw0, labs) if anchors(r, l, cfg["test_fdr"], True)[0] is None]
+            return [("reset:" + ("runtimeerror-float32-threshold-tie(C01)" if f32 else "runtimeerror-unexpected"),
+                     "re-training got worse in %d of %d folds; brew stopped with RuntimeError although the original model "
+                     "accepts targets in every collection" % (len(worse), cfg["folds"]))], path, True
+        if any(np.ndim(s) != 1 or len(s) != len(l) for s, l in zip(val, labs)):
+            return [], "fallback", False                      # best-feature fallback took over (C07)
+        out, dom = [], True
+        for fi, (r, l, s) in enumerate(zip(raw0, labs, val)):
+            cid, what, in_dom = judge(r, l, cfg["test_fdr"], ("ok", np.asarray(s, dtype=float)))
+            dom = dom and bool(in_dom)
+            if cid:
+                out.append(("reset:" + cid, "re-training got worse in %d of %d folds, so the ORIGINAL model's output, "
+                            "calibrated over the whole collection, is expected (file %d): %s"
+                            % (len(worse), cfg["folds"], fi, what)))
+        return out, path, dom
+    # nobody got worse: the ordinary per-fold scoring with the re-trained copies
+    done = sorted(fitted, key=lambda m: m.fold)
+    rec = _fold_outputs(files, done, cfg["folds"])
+    if rec is None:
+        return [("pretrained-folds:fold-recovery-failed", "the held-out rows of the fold models do not partition the files")], \
+            "retrained", False
+    judged, _ = rec
+    acc = [anchors(raw, lab, cfg["test_fdr"])[0] is not None for _, _, _, raw, lab in judged]
+    if kind == "RuntimeError":
+        if not all(acc):
+            return [], "retrained", True
+        f32 = [1 for _, _, _, raw, lab in judged if anchors(raw, lab, cfg["test_fdr"], True)[0] is None]
+        return [("pretrained-folds:" + ("runtimeerror-float32-threshold-tie(C01)" if f32 else "runtimeerror-unexpected"),
+                 "brew stopped with RuntimeError although every fold has an accepted target")], "retrained", True
+    if any(np.ndim(s) != 1 or len(s) != len(l) for s, l in zip(val, labs)):
+        return [], "fallback", False
+    if not all(acc):
+        return [("pretrained-folds:runtimeerror-missing", "a fold without accepted target did not stop the run")], "retrained", True
+    out, dom = [], True
+    for fi, f, pos, raw, lab in judged:
+        cid, what, in_dom = judge(raw, lab, cfg["test_fdr"], ("ok", np.asarray(val[fi], dtype=float)[pos]))
+        dom = dom and bool(in_dom)
+        if cid:
+            out.append(("pretrained-folds:fold:" + cid, "no fold got worse; file %d fold %d: %s" % (fi, f, what)))
+    return out, "retrained", dom
+
+
+def _reset_configs(tier, seed):
+    rng = np.random.default_rng(seed + 11111111)
+    n = 32 if tier == "quick" else 480
+    cfgs = []
+    for k in range(n):
+        folds = 2 + (k // len(RESET_MODES) + k) % (3 if tier == "quick" else 5)
+        fdr = [0.2, 0.25, 0.15, 0.3][(k // 2) % 4] if k % 5 else float(np.round(rng.uniform(0.12, 0.3), 3))
+        train_fdr = min(fdr, [0.1, 0.2, 0.15][k % 3])
+        if k % 16 == 13:
+            fdr = 0.001                                       # the original model accepts nothing: explicit-error path
+        cfgs.append({"k": k, "mode": RESET_MODES[k % len(RESET_MODES)], "n_spec": int(rng.integers(100, 181)),
+                     "n_feat": 3 + k % 3, "data_seed": int(rng.integers(1 << 30)), "rng": int(rng.integers(1 << 30)),
+                     "folds": folds, "test_fdr": fdr, "train_fdr": train_fdr, "pre": "other" if k % 4 == 2 else "same",
+                     "files": 2 if k % 5 == 3 else 1, "cut": int(rng.integers(35, 66)),
+                     "fmt": "parquet" if (k // 2) % 2 else "tsv", "chunk": [None, 2, 3][(k // 3) % 3],
+                     "workers": 1 + (k % 6 == 4), "max_iter": 1 + (k % 4 == 1),
+                     "scaler": "standard" if k % 7 == 5 else "as-is", "gain": [1.0, 0.01, 30.0][(k // 2) % 3],
+                     "round": k % 9 == 8})
+    return cfgs
+
+
+def check_reset_path(tier, seed):
+    cfgs = _reset_configs(tier, seed)
+    ck = Check(
+        "reset_path", "mokapot.brew.brew (single pre-trained Model: _fit_model reset flag -> _predict_with_ensemble([model]) "
+        "-> OnDiskPsmDataset.calibrate_scores; else brew._predict per fold)",
+        "random: %d brew runs (seed %d) with ONE already trained Model (train_fdr 0.1..0.2, <= test_fdr except in the error-path runs, 1-2 "
+        "iterations, scaler as-is or StandardScaler, override=False once trained) pre-trained through Model.fit on the same table or on another "
+        "table of the same kind; its linear decision_function estimator (all 3..5 features, per-fit scale x1..7, gain "
+        "0.01/1/30) learns the class-mean direction while pre-training and, when re-trained inside brew, by mode in %s: a "
+        "mostly-noise direction, a noise-only direction, the reversed direction, the mostly-noise direction for "
+        "odd-sized training sets only, or the good direction again; on-disk datasets of 200..360 PSMs in 1 or 2 files "
+        "(Parquet/TSV; two files: the table cut between two spectra at 35..65 %%), folds 2..%d, test_fdr in {0.2, 0.25, 0.15, "
+        "0.3, uniform(0.12,0.3), 0.001 (error path)}, "
+        "predictions in 1, 2 or 3 row chunks, max_workers 1 or 2"
+        % (len(cfgs), seed, sorted(set(RESET_MODES)), 4 if tier == "quick" else 6),
+        "Model.fit of every fold copy records its training rows and the RuntimeError it stopped with; if at least one fold "
+        "stopped with 'Model performs worse after training.' (reset path) every file's returned scores must equal "
+        "(raw0 - t)/(t - d), raw0 = the ORIGINAL model's decision values computed from its estimator before brew ran, "
+        "t, d from the exact oracle over the WHOLE file (strictly increasing in raw0, 0 at t, -1 at d), RuntimeError "
+        "iff the original model accepts no target of some file; if no fold got worse the per-fold rule of check "
+        "per_fold_chunks applies to the re-trained copies (case ids 'pretrained-folds:'); non-trivial = a reset-path run "
+        "in the domain (or its error path), or a re-trained run whose folds are all in the domain")
+    seen = set()
+    stats = collections.Counter()
+    with scratch("c11e_") as d:
+        for cfg in cfgs:
+            case = _reset_case(cfg, d)
+            vio, path, dom = _judge_reset(cfg, case)
+            stats[path] += 1
+            if case is not None and case[2][0] == "RuntimeError" and path.startswith("re"):
+                stats["error_path"] += 1
+            if path.startswith("reset") and cfg["files"] > 1:
+                stats["reset_two_files"] += 1
+            ck.case(cfg, nontrivial=bool(dom) and path in ("reset-all", "reset-some", "retrained") and not vio)
+            for cid, what in vio:
+                if cid not in seen:
+                    seen.add(cid)
+                    ck.violation(cid, what, cfg)
+    ck.rule += "; reset-path runs: %d with every fold worse, %d with only some folds worse (%d of them on two files); %d " \
+               "re-trained runs judged per fold; %d error-path runs among them; not judged: %d best-feature fallback, " \
+               "%d training stopped with another error, %d pre-training failed" \
+               % (stats["reset-all"], stats["reset-some"], stats["reset_two_files"], stats["retrained"],
+                  stats["error_path"], stats["fallback"], stats["untrained"], stats["no-pretraining"])
+    return _freeze(ck)
+
+
+# ----------------------------------------------------------------------------------------------------------
 def REPLAY(check_name, violation):
     inp = violation["input"]
     if isinstance(inp, str):
@@ -630,13 +1199,55 @@ def REPLAY(check_name, violation):
             df, chunk, outcome, fitted = _chunk_case(inp, d)
             vio, _, cls = _judge_chunks(inp, df, chunk, outcome, fitted)
         return {"violated": bool(vio), "detail": vio, "chunking": cls}
+    if check_name == "per_fold_estimators":
+        with scratch("c11r_") as d:
+            df, outcome, fitted = _est_case(inp, d)
+            vio, _, has_dec = _judge_est(inp, df, outcome, fitted)
+        return {"violated": bool(vio), "detail": vio, "has_decision_function": has_dec}
+    if check_name == "reset_path":
+        with scratch("c11r_") as d:
+            vio, path, _ = _judge_reset(inp, _reset_case(inp, d))
+        return {"violated": bool(vio), "detail": vio, "path": path}
     return {"violated": None, "note": "no replay for %s" % check_name}
+
+
+class _Finished:
+    """the result of a check that ran in a worker process"""
+
+    def __init__(self, res):
+        self.res = res
+        self.violations = res["violations"]
+
+    def result(self):
+        return self.res
+
+
+def _run_one(job):
+    name, tier, seed = job
+    np.random.seed(seed)
+    return globals()[name](tier, seed).result()
+
+
+def _run_checks(names, tier, seed, workers=3):
+    """The checks are independent (each seeds its own generators): run them in forked worker processes, longest
+    first, and report them in the fixed order of CHECK_ORDER."""
+    import multiprocessing as mp
+    importlib.import_module("mokapot.brew")                   # imported once, before the fork
+    with mp.get_context("fork").Pool(workers) as pool:
+        res = pool.map(_run_one, [(n, tier, seed) for n in names], chunksize=1)
+    by_name = dict(zip(names, res))
+    return [_Finished(by_name[n]) for n in CHECK_ORDER]
+
+
+CHECK_ORDER = ("check_calibrate", "check_per_fold", "check_per_fold_chunks", "check_per_fold_estimators",
+               "check_reset_path")
 
 
 if __name__ == "__main__":
     a = args()
     np.random.seed(a.seed)
-    emit([check_calibrate(a.tier, a.seed), check_per_fold(a.tier, a.seed), check_per_fold_chunks(a.tier, a.seed)],
+    emit(_run_checks(["check_per_fold_chunks", "check_per_fold_estimators", "check_calibrate", "check_per_fold",
+                      "check_reset_path"], a.tier, a.seed),
          ["accepted targets are decided by the exact rational q-values of the C01 oracle, rounded to the nearest double "
           "(q <= eval_fdr); a mismatch "
           "explained by tdc's float32 rounding at the threshold gets a case id ending in '(C01)'",
@@ -649,4 +1260,14 @@ if __name__ == "__main__":
           "fold's model or calibrated with another fold show up; the prediction chunk size is set by monkey-patching "
           "mokapot.brew.CHUNK_SIZE_ROWS_PREDICTION; runs whose TRAINING stops with RuntimeError (table too small for "
           "train_fdr) are counted, not judged; one file per run (several files are not covered)",
+          "per_fold_estimators: the model output of an estimator is its decision function when it has one (also when it "
+          "offers predict_proba as well), else its positive-class probability; the anchor and RuntimeError clauses are "
+          "demanded only of estimators exposing a decision function (the statement's quantifier); for predict_proba-only "
+          "estimators only 'positive-slope affine image of the model output inside each fold' is checked (the real code "
+          "returns their probabilities as they are)",
+          "reset_path: the reset condition is observed in Model.fit of the fold copies (RuntimeError 'Model performs worse "
+          "after training.' in at least one fold, single trained Model passed); the original model's output is computed "
+          "from its estimator before brew runs; the degradation of the re-trained estimator is driven by a `stage` "
+          "attribute the harness sets after pre-training; runs taken over by the best-feature fallback (C07) or whose "
+          "training stops with another error are counted, not judged; lists of trained models are not covered here",
           "comparison tolerance %g relative; desc=True only" % TOL])
